@@ -44,10 +44,11 @@ CLAIMED = {
         ref="DESIGN.md 5/C06"),
     "C17": dict(
         text="Coq theorems: valid iff no error; the one-shot wrapper returns nil or exactly the result's errors; message-keyed "
-             "de-duplication keeps NoDup and loses nothing; merge validity. Tie: the set of (code, name), MatchCount and error count "
+             "de-duplication keeps NoDup and loses nothing; merge validity; every error name is empty or extends the validator's path, "
+             "through every keyword group, for every schema, value and fuel (names_extend_the_path). Tie: the set of (code, name), MatchCount and error count "
              "of every result compared with the L1 model, whose names reproduce each concatenation site; oracle on Go output: names "
              "extend the root and designate a member (or a missing required one) on the claimed class.",
-        note=TB + "No axioms. Name-location theorems over the whole pipeline are not proved yet (checked by the oracle on Go output).",
+        note=TB + "No axioms. That a name designates an existing member (or a missing required one) is checked by the oracle on Go output, not proved.",
         tech="Rocq proof (result laws) + error-projection correspondence + location oracle",
         ref="DESIGN.md 5/C17"),
     "C02": dict(
